@@ -131,7 +131,10 @@ Print Assumptions C17_head_invariant_needed.
    xstream_update_max_xstreams computes newrank + 1 in int: signed overflow. *)
 Theorem C17_rank_int_max_refuted :
   exists s0, api_init 4 = Ok s0 /\ api_step s0 (ACreateRank INT_MAX) = Bad EOverflow.
-Proof. eexists. split; vm_compute; reflexivity. Qed.
+Proof.
+  exists (match api_init 4 with Ok s => s | Bad _ => rl_empty 0 end).
+  split; vm_compute; reflexivity.
+Qed.
 Print Assumptions C17_rank_int_max_refuted.
 
 (* The native-thread protocol of abtd_stream.c: in every run of the LTS -- all
